@@ -121,6 +121,12 @@ Lemma gen_decode_S S p f t s : gen_decode S p (Datatypes.S f) t s =
   end.
 Proof. reflexivity. Qed.
 
+(* contexts inside a struct *)
+Definition wc1_ (p : pk) (c : wctx) : wctx :=
+  match p with PCompact => mkW 0 (w_last c :: w_stack c) None | _ => c end.
+Definition rc1_ (p : pk) (rcx : rctx) : rctx :=
+  match p with PCompact => mkR 0 (r_last rcx :: r_stack rcx) (r_pbool rcx) (r_pfield rcx) | _ => rcx end.
+
 Section Round.
   Variable S : schema.
   Hypothesis Hwf : wf_schema S = true.
@@ -369,4 +375,308 @@ Section Round.
     destruct (r_map_begin p (mkS (flat ss ++ r) rcx)) as [[h s1]| |]; cbn [bind] in *; try discriminate.
     rewrite Hr. reflexivity.
   Qed.
+
+  (* ----- one field: header, (header length on the reader), value ----- *)
+  Lemma tbool_inv t x : ttype_of_ty S t = TBool -> has_type S t x = true ->
+    exists b, x = GBool b /\ resolve S t = TyBool.
+  Proof.
+    intros Ety Ht. pose proof (to_tval_ttype S x t Ht) as E. rewrite Ety in E.
+    destruct x; try discriminate E.
+    - cbn [has_type] in Ht. res_cases S t. eauto.
+    - rewrite to_tval_list in E. destruct (resolve S t); discriminate.
+    - rewrite to_tval_set in E. destruct (resolve S t); discriminate.
+    - rewrite to_tval_map in E. destruct (resolve S t); discriminate.
+    - rewrite to_tval_struct in E. destruct (resolve S t); try discriminate.
+      destruct (lookup S n) as [[]|]; discriminate.
+    - rewrite to_tval_union in E. destruct (resolve S t); try discriminate.
+      destruct (lookup S n) as [[]|]; try discriminate. destruct (find_variant vs id); try discriminate.
+      destruct (is_void (resolve S t0)); discriminate.
+  Qed.
+
+  Lemma g_field_rt t id x : GRT x -> has_type S t x = true -> ttype_ok S t = true -> in_s 16 id ->
+    forall c, w_pend c = None -> (p = PCompact -> in_s 16 (w_last c)) ->
+    exists ss, (w_field_begin p (ttype_of_ty S t) id ;; write_val p k (to_tval S t x) ;; w_field_end p) c
+               = Ok (ss, wlast_upd p id c) /\
+    forall f r rcx, (vsize (to_tval S t x) <= f)%nat -> idle rcx -> (p = PCompact -> r_last rcx = w_last c) ->
+      exists s1 n s2, r_field_begin p (mkS (flat ss ++ r) rcx) = Ok ((ttype_of_ty S t, Some id), s1) /\
+        r_field_begin_len p (ttype_of_ty S t) (Some id) s1 = Ok (n, s2) /\
+        gen_decode S p f t s2 = Ok (fill_defaults S t x, mkS r (rlast_upd p id rcx)).
+  Proof.
+    intros Hx Ht Hok Hid c Hp Hl.
+    destruct (match p, ttype_of_ty S t with PCompact, TBool => true | _, _ => false end) eqn:Ecb.
+    - (* compact bool: header and value share one byte *)
+      destruct p; try discriminate. destruct (ttype_of_ty S t) eqn:Ety; try discriminate.
+      destruct (tbool_inv _ _ Ety Ht) as (b & -> & Eres).
+      cbn [to_tval write_val].
+      destruct (w_boolfield_ok b id c Hid Hp (Hl eq_refl)) as (s1 & Hw1 & _ & Hr1).
+      exists s1. split. { rewrite Hw1. cbn [wlast_upd]. rewrite Hp. reflexivity. }
+      intros f r rcx Hf Hi Hlast.
+      destruct (Hr1 r rcx (Hlast eq_refl) Hi) as (sx & Hfb & Hrb).
+      exists sx, 0, (set_rc sx (mkR (r_last (rc sx)) (r_stack (rc sx)) (r_pbool (rc sx)) true)).
+      split; [exact Hfb|]. split.
+      + unfold r_field_begin_len. rewrite (r_field_begin_compact_pfield _ _ _ Hfb). cbn [rc].
+        rewrite (proj2 Hi). reflexivity.
+      + destruct f as [|f]; [cbn [vsize] in Hf; lia|]. rewrite gen_decode_S, Eres.
+        rewrite r_bool_pfield, Hrb. cbn [bind fill_defaults rlast_upd].
+        rewrite (proj1 Hi), (proj2 Hi). reflexivity.
+    - assert (Hnb : p = PCompact -> ttype_of_ty S t <> TBool).
+      { intros -> E. rewrite E in Ecb. discriminate. }
+      assert (Hns : ttype_of_ty S t <> TStop).
+      { unfold ttype_ok in Hok. intros E. rewrite E in Hok. discriminate. }
+      destruct (w_field_ok p (ttype_of_ty S t) id c Hnb Hns Hok Hid Hp Hl) as (s1 & Hw1 & _ & Hr1).
+      set (c1 := wlast_upd p id c) in *.
+      assert (Hp1 : w_pend c1 = None) by (subst c1; destruct p; cbn [wlast_upd w_pend]; auto).
+      destruct (Hx t Ht c1 Hp1) as (s2 & Hw2 & Hr2).
+      exists ((s1 ++ s2) ++ []). split.
+      { eapply wseq_ok; [eapply wseq_ok|]; eauto. apply w_field_end_ok; auto. }
+      intros f r rcx Hf Hi Hlast. rewrite app_nil_r, flat_app, <- app_assoc.
+      destruct (r_fbl_nonbool p (ttype_of_ty S t) id (mkS (flat s2 ++ r) (rlast_upd p id rcx)) Hnb Hok) as (n & Hn).
+      exists (mkS (flat s2 ++ r) (rlast_upd p id rcx)), n, (mkS (flat s2 ++ r) (rlast_upd p id rcx)).
+      split; [apply Hr1; auto|]. split; [exact Hn|].
+      apply Hr2; auto. apply idle_rlast_upd. exact Hi.
+  Qed.
+
+  (* ----- struct fields ----- *)
+  Definition FOK (dfs : list field) (q : Z * gval) : Prop :=
+    exists f, find_field dfs (fst q) = Some f /\ field_ok S f = true /\ has_type S (f_ty f) (snd q) = true.
+
+  Lemma ttype_ok_nonstop t : ttype_ok S t = true -> ttype_eqb (ttype_of_ty S t) TStop = false.
+  Proof. unfold ttype_ok. destruct (ttype_of_ty S t); cbn; congruence. Qed.
+
+  Lemma g_fields_rt dfs fs :
+    Forall (fun q => GRT (snd q)) fs -> Forall (FOK dfs) fs ->
+    forall c, w_pend c = None -> (p = PCompact -> in_s 16 (w_last c)) ->
+    exists ss c', write_fields p k (tv_fields S dfs fs) c = Ok (ss, c') /\ w_pend c' = None /\
+      w_stack c' = w_stack c /\ (p <> PCompact -> c' = c) /\
+    forall f n r rcx vars,
+      (forall id x g, In (id, x) fs -> find_field dfs id = Some g -> (vsize (to_tval S (f_ty g) x) <= f)%nat) ->
+      (length fs < n)%nat -> idle rcx -> (p = PCompact -> r_last rcx = w_last c) ->
+      dec_fields S p f (gen_decode S p f) n dfs vars (mkS (flat ss ++ x00 :: r) rcx)
+      = Ok (apply_fields S dfs fs vars, mkS r (rlast_upd p (w_last c') rcx)).
+  Proof.
+    induction fs as [|[id x] t IH]; intros HF HK c Hp Hl.
+    - exists [], c. split; [reflexivity|]. repeat split; auto.
+      intros f n r rcx vars _ Hn Hi Hlast. destruct n as [|n]; [cbn in Hn; lia|].
+      cbn [flat map concat app dec_fields apply_fields].
+      destruct (proj2 (w_field_stop_ok p c Hp) r rcx) as (oid & Hs). rewrite Hs. cbn [bind fst ttype_eqb].
+      rewrite r_field_stop_len_idle by exact Hi. cbn [bind]. f_equal. f_equal. f_equal.
+      destruct p; cbn [rlast_upd]; auto. rewrite <- (Hlast eq_refl). symmetry. apply rctx_eta.
+    - inversion HF as [|? ? Hx Hxs]; subst. inversion HK as [|? ? (g & Hg & Hok & Hty) HKs]; subst.
+      cbn [fst snd] in *.
+      destruct (field_ok_inv _ _ Hok) as (Hidg & Hto & _ & _). destruct (find_field_in _ _ _ Hg) as [_ Eid].
+      rewrite Eid in Hidg.
+      destruct (g_field_rt (f_ty g) id x Hx Hty Hto Hidg c Hp Hl) as (s1 & Hw1 & Hr1).
+      set (c1 := wlast_upd p id c) in *.
+      assert (Hp1 : w_pend c1 = None) by (subst c1; destruct p; cbn [wlast_upd w_pend]; auto).
+      assert (Hl1 : p = PCompact -> in_s 16 (w_last c1)) by (intros ->; subst c1; cbn; exact Hidg).
+      destruct (IH Hxs HKs c1 Hp1 Hl1) as (s2 & c2 & Hw2 & Hp2 & Hst2 & Hnc2 & Hr2).
+      exists (s1 ++ s2), c2. split.
+      { rewrite tv_fields_cons, Hg.
+        change (write_fields p k ((id, to_tval S (f_ty g) x) :: tv_fields S dfs t)) with
+          (w_field_begin p (ttype_of (to_tval S (f_ty g) x)) id ;; write_val p k (to_tval S (f_ty g) x) ;;
+           w_field_end p ;; write_fields p k (tv_fields S dfs t)).
+        rewrite (to_tval_ttype S _ _ Hty). eapply wseq_ok; eauto. }
+      split; [exact Hp2|]. split.
+      { rewrite Hst2. subst c1. destruct p; reflexivity. }
+      split.
+      { intros Hpc. rewrite (Hnc2 Hpc). subst c1. destruct p; try congruence; reflexivity. }
+      intros f n r rcx vars Hv Hn Hi Hlast.
+      destruct n as [|n]; [cbn in Hn; lia|]. cbn [dec_fields].
+      rewrite flat_app, <- app_assoc.
+      destruct (Hr1 f (flat s2 ++ x00 :: r) rcx (Hv id x g (or_introl eq_refl) Hg) Hi Hlast)
+        as (sx & nn & sy & Hfb & Hfbl & Hdec).
+      rewrite Hfb. cbn [bind fst snd]. rewrite (ttype_ok_nonstop _ Hto).
+      rewrite Hfbl. cbn [bind]. rewrite (match_field_found S dfs O id g Hg). rewrite Hdec. cbn [bind].
+      rewrite r_field_end_len_idle by (apply idle_rlast_upd; exact Hi). cbn [bind].
+      rewrite Hr2.
+      + cbn [apply_fields]. rewrite Hg. cbn [Nat.add]. f_equal. f_equal. f_equal. destruct p; reflexivity.
+      + intros id' x' g' Hin Hg'. apply (Hv id' x' g'); [right; exact Hin|exact Hg'].
+      + cbn [length] in Hn. lia.
+      + apply idle_rlast_upd; exact Hi.
+      + intros ->. subst c1. reflexivity.
+  Qed.
+
+  (* ----- struct begin / end frame ----- *)
+  Notation wc1 := (wc1_ p).
+  Notation rc1 := (rc1_ p).
+
+  Lemma frame_write (body : wm) c s2 c2 :
+    w_pend c = None -> body (wc1 c) = Ok (s2, c2) -> w_pend c2 = None -> w_stack c2 = w_stack (wc1 c) ->
+    (p <> PCompact -> c2 = wc1 c) ->
+    (w_struct_begin p ;; body ;; w_field_stop p ;; w_struct_end p) c = Ok ((([] ++ s2) ++ [Copy [x00]]) ++ [], c).
+  Proof.
+    intros Hp Hb Hp2 Hst2 Hnc2. unfold wc1_ in *.
+    assert (Hbeg : w_struct_begin p c = Ok ([], match p with PCompact => mkW 0 (w_last c :: w_stack c) None | _ => c end)).
+    { destruct p; cbn [w_struct_begin]; try reflexivity. rewrite Hp. reflexivity. }
+    destruct (w_field_stop_ok p c2 Hp2) as [Hstop _].
+    assert (He : w_struct_end p c2 = Ok ([], c)).
+    { destruct p eqn:Ep; cbn [w_struct_end].
+      - rewrite (Hnc2 ltac:(discriminate)). reflexivity.
+      - rewrite (Hnc2 ltac:(discriminate)). reflexivity.
+      - rewrite Hp2, Hst2. cbn [w_stack]. rewrite wctx_eta by auto. reflexivity. }
+    eapply wseq_ok; [eapply wseq_ok; [eapply wseq_ok|]|]; eauto.
+  Qed.
+
+  Lemma wc1_pend c : w_pend c = None -> w_pend (wc1 c) = None.
+  Proof. unfold wc1_. destruct p; auto. Qed.
+  Lemma wc1_last c : p = PCompact -> in_s 16 (w_last (wc1 c)).
+  Proof. intros ->. apply in_s16_0. Qed.
+  Lemma rc1_idle rcx : idle rcx -> idle (rc1 rcx).
+  Proof. unfold rc1_. destruct p; auto. Qed.
+  Lemma rc1_last c rcx : p = PCompact -> r_last (rc1 rcx) = w_last (wc1 c).
+  Proof. intros ->. reflexivity. Qed.
+  Lemma frame_rbegin b rcx : r_struct_begin p (mkS b rcx) = Ok (tt, mkS b (rc1 rcx)).
+  Proof. unfold rc1_. destruct p; reflexivity. Qed.
+  Lemma frame_rend r l rcx : r_struct_end p (mkS r (rlast_upd p l (rc1 rcx))) = Ok (tt, mkS r rcx).
+  Proof.
+    unfold rc1_. destruct p; cbn [r_struct_end rlast_upd]; try reflexivity.
+    unfold set_rc. cbn [rc rbuf r_stack r_pbool r_pfield]. rewrite rctx_eta. reflexivity.
+  Qed.
+
+  Lemma tv_fields_length dfs fs : Forall (FOK dfs) fs -> length (tv_fields S dfs fs) = length fs.
+  Proof.
+    induction fs as [|[id x] r IH]; intros H; [reflexivity|].
+    inversion H as [|? ? (g & Hg & _) Hr]; subst. cbn [fst] in Hg.
+    rewrite tv_fields_cons, Hg. cbn [length]. rewrite IH; auto.
+  Qed.
+  Lemma tv_fields_in dfs fs id x g : In (id, x) fs -> find_field dfs id = Some g ->
+    In (id, to_tval S (f_ty g) x) (tv_fields S dfs fs).
+  Proof.
+    induction fs as [|[i y] r IH]; intros Hin Hg; [destruct Hin|].
+    rewrite tv_fields_cons. destruct Hin as [E|Hin].
+    - injection E as -> ->. rewrite Hg. left. reflexivity.
+    - destruct (find_field dfs i); [right|]; auto.
+  Qed.
+
+  Lemma GRT_struct fs unk : Forall (fun q => GRT (snd q)) fs -> GRT (GStruct fs unk).
+  Proof.
+    intros HF t Ht c Hp. rewrite has_type_struct in Ht. destruct unk; [|discriminate].
+    rewrite to_tval_struct, fill_defaults_struct. res_cases S t. decl_cases S n.
+    pose proof (ht_struct_inv S Hwf _ _ _ _ _ Elk Ht) as HK.
+    destruct (wf_struct S Hwf _ _ _ _ Elk) as [Hnd _].
+    destruct (g_fields_rt dfs fs HF HK (wc1 c) (wc1_pend c Hp) (wc1_last c)) as (s2 & c2 & Hw2 & Hp2 & Hst2 & Hnc2 & Hr2).
+    eexists. split.
+    { change (write_val p k (VStruct (tv_fields S dfs fs))) with
+        (w_struct_begin p ;; write_fields p k (tv_fields S dfs fs) ;; w_field_stop p ;; w_struct_end p).
+      eapply frame_write; eauto. }
+    cbn [app]. rewrite app_nil_r.
+    intros fuel r rcx Hf Hi.
+    destruct fuel as [|f]; [pose proof (vsize_pos (VStruct (tv_fields S dfs fs))); lia|].
+    rewrite gen_decode_S, Eres, Elk. rewrite flat_app, flat_copy, <- app_assoc. cbn [app].
+    rewrite frame_rbegin. cbn [bind].
+    rewrite Hr2.
+    - cbn [bind]. rewrite frame_rend. cbn [bind].
+      rewrite (finish_apply_top S dfs fs Hnd Ht). reflexivity.
+    - intros id x g Hin Hg. pose proof (tv_fields_in dfs fs id x g Hin Hg) as Hin'.
+      destruct (vsize_struct_bound _ _ Hin') as [Hb _]. cbn [snd] in Hb. lia.
+    - pose proof (vsize_struct_len (tv_fields S dfs fs)) as Hb. rewrite tv_fields_length in Hb by exact HK. lia.
+    - apply rc1_idle; exact Hi.
+    - apply rc1_last.
+  Qed.
+
+  (* ----- unions ----- *)
+  Lemma void_variant_first n vs vok kp id vt :
+    lookup S n = Some (DUnion vs vok kp) -> find_variant vs id = Some vt -> is_void (resolve S vt) = true ->
+    vok = true /\ exists t0 r, vs = (id, t0) :: r.
+  Proof.
+    intros Hl Hv Hvoid. apply (wf_lookup S Hwf) in Hl. cbn [decl_ok] in Hl.
+    apply andb_prop in Hl as [_ Hl]. destruct vs as [|[i0 t0] r]; [discriminate|].
+    apply andb_prop in Hl as [Hl _]. apply andb_prop in Hl as [Hvok Hr].
+    cbn [find_variant] in Hv. destruct (Z.eqb_spec i0 id) as [->|Hne].
+    - injection Hv as ->. rewrite Hvoid in Hvok. destruct vok; [|discriminate]. eauto.
+    - apply find_variant_in in Hv. rewrite forallb_forall in Hr. specialize (Hr _ Hv). cbn in Hr.
+      apply ttype_ok_nonvoid in Hr. congruence.
+  Qed.
+
+  Lemma GRT_union id x : GRT x -> GRT (GUnion id x).
+  Proof.
+    intros Hx t Ht c Hp. rewrite has_type_union in Ht. rewrite to_tval_union, fill_defaults_union.
+    res_cases S t. decl_cases S n. destruct (find_variant vs id) as [vt|] eqn:Ev; [|discriminate].
+    destruct (is_void (resolve S vt)) eqn:Evoid.
+    - (* void variant: the empty struct *)
+      destruct x; try discriminate.
+      destruct (void_variant_first _ _ _ _ _ _ Elk Ev Evoid) as (-> & t0 & rest & ->).
+      eexists. split.
+      { change (write_val p k (VStruct [])) with (w_struct_begin p ;; wnop ;; w_field_stop p ;; w_struct_end p).
+        exact (frame_write wnop c [] (wc1 c) Hp eq_refl (wc1_pend c Hp) eq_refl (fun _ => eq_refl)). }
+      cbn [app]. intros fuel r rcx Hf Hi.
+      destruct fuel as [|f]; [cbn [vsize] in Hf; lia|].
+      rewrite gen_decode_S, Eres, Elk. rewrite flat_copy. cbn [app].
+      rewrite frame_rbegin. cbn [bind dec_variants].
+      destruct (proj2 (w_field_stop_ok p c Hp) r (rc1 rcx)) as (oid & Hs). rewrite Hs. cbn [bind fst ttype_eqb].
+      rewrite r_field_stop_len_idle by (apply rc1_idle; exact Hi). cbn [bind].
+      assert (Hre : r_struct_end p (mkS r (rc1 rcx)) = Ok (tt, mkS r rcx)).
+      { pose proof (frame_rend r (r_last (rc1 rcx)) rcx) as E.
+        replace (rlast_upd p (r_last (rc1 rcx)) (rc1 rcx)) with (rc1 rcx) in E; [exact E|].
+        destruct p; cbn [rlast_upd]; auto; symmetry; apply rctx_eta. }
+      rewrite Hre. cbn [bind fill_defaults]. reflexivity.
+    - (* one field *)
+      pose proof (find_variant_in _ _ _ Ev) as Hin.
+      pose proof (wf_variant_ok S Hwf _ _ _ _ _ _ Elk Hin Evoid) as Hto.
+      pose proof (wf_variant S Hwf _ _ _ _ _ _ Elk Ev) as Hid.
+      destruct (g_field_rt vt id x Hx Ht Hto Hid (wc1 c) (wc1_pend c Hp) (wc1_last c)) as (s1 & Hw1 & Hr1).
+      eexists. split.
+      { change (write_val p k (VStruct [(id, to_tval S vt x)])) with
+          (w_struct_begin p ;;
+           (w_field_begin p (ttype_of (to_tval S vt x)) id ;; write_val p k (to_tval S vt x) ;; w_field_end p ;; wnop) ;;
+           w_field_stop p ;; w_struct_end p).
+        rewrite (to_tval_ttype S _ _ Ht).
+        eapply frame_write; [exact Hp|eapply wseq_ok; [exact Hw1|reflexivity]| | |].
+        - destruct p; cbn [wlast_upd w_pend]; auto using wc1_pend.
+        - destruct p; reflexivity.
+        - intros Hpc. destruct p; try congruence; reflexivity. }
+      cbn [app]. rewrite !app_nil_r.
+      intros fuel r rcx Hf Hi.
+      destruct fuel as [|f]; [cbn [vsize] in Hf; lia|].
+      destruct f as [|f]; [cbn [vsize] in Hf; lia|].
+      rewrite gen_decode_S, Eres, Elk. rewrite flat_app, flat_copy, <- app_assoc. cbn [app].
+      rewrite frame_rbegin. cbn [bind]. cbn [dec_variants].
+      assert (Hsz : (vsize (to_tval S vt x) <= Datatypes.S f)%nat) by (cbn [vsize] in Hf; lia).
+      destruct (Hr1 (Datatypes.S f) (x00 :: r) (rc1 rcx) Hsz (rc1_idle _ Hi) (rc1_last c rcx))
+        as (sx & nn & sy & Hfb & Hfbl & Hdec).
+      rewrite Hfb. cbn [bind fst snd]. rewrite (ttype_ok_nonstop _ Hto). rewrite Hfbl. cbn [bind].
+      rewrite Ev, Evoid. rewrite Hdec. cbn [bind].
+      destruct (proj2 (w_field_stop_ok p c Hp) r (rlast_upd p id (rc1 rcx))) as (oid & Hs). rewrite Hs.
+      cbn [bind fst ttype_eqb].
+      rewrite r_field_stop_len_idle by (apply idle_rlast_upd, rc1_idle; exact Hi). cbn [bind].
+      rewrite frame_rend. cbn [bind]. reflexivity.
+  Qed.
+
+  Lemma GRT_unk u : GRT (GUnionUnknown u).
+  Proof. intros t Ht. discriminate. Qed.
+
+  Theorem GRT_all v : GRT v.
+  Proof.
+    induction v using gval_ind'.
+    - apply GRT_bool. - apply GRT_i8. - apply GRT_i16. - apply GRT_i32. - apply GRT_i64.
+    - apply GRT_double. - apply GRT_bytes. - apply GRT_uuid. - apply GRT_void. - apply GRT_enum.
+    - apply GRT_list; auto. - apply GRT_set; auto. - apply GRT_map; auto.
+    - apply GRT_struct; auto. - apply GRT_union; auto. - apply GRT_unk.
+  Qed.
 End Round.
+
+(* ---------- C02 ---------- *)
+Theorem gen_roundtrip : forall S p k t v,
+  wf_schema S = true -> has_type S t v = true ->
+  forall c, w_pend c = None ->
+  exists ss, enc_ty S p k t v c = Ok (ss, c) /\
+    forall fuel r rcx, (vsize (to_tval S t v) <= fuel)%nat -> idle rcx ->
+      gen_decode S p fuel t (mkS (flat ss ++ r) rcx) = Ok (fill_defaults S t v, mkS r rcx).
+Proof.
+  intros S p k t v Hwf Ht c Hp.
+  destruct (GRT_all S Hwf p k v t Ht c Hp) as (ss & Hw & Hr).
+  exists ss. split; [rewrite (enc_as_tval S Hwf p k v t Ht); exact Hw|exact Hr].
+Qed.
+
+(* the same on fresh protocol objects and a complete buffer *)
+Corollary gen_roundtrip_fresh : forall S p k t v b,
+  wf_schema S = true -> has_type S t v = true -> gen_encode S p k t v = Ok b ->
+  forall fuel, (vsize (to_tval S t v) <= fuel)%nat ->
+    gen_decode S p fuel t (mkS b r0) = Ok (fill_defaults S t v, mkS [] r0).
+Proof.
+  intros S p k t v b Hwf Ht He fuel Hf.
+  destruct (gen_roundtrip S p k t v Hwf Ht w0 eq_refl) as (ss & Hw & Hr).
+  unfold gen_encode in He. rewrite Hw in He. cbn [bind] in He. injection He as <-.
+  specialize (Hr fuel [] r0 Hf idle_r0). rewrite app_nil_r in Hr. exact Hr.
+Qed.
+
